@@ -7,6 +7,7 @@ from collections import OrderedDict
 
 from pyworkers.pool import Pool, PoolError
 from pyworkers.worker import WorkerType
+from pyworkers.persistent import WorkerClosedError
 
 from .. import wsim, targets as T, vos, simos
 from ..vos import Hang, Killed
@@ -168,7 +169,10 @@ def _run(W, ops, exitmode, tmo, force):
             elif op == "make-a-worker-stuck":
                 for w in pool.workers:
                     if w.is_alive() and not w.is_thread:
-                        w.enqueue(0, "stuck")
+                        try:
+                            w.enqueue(0, "stuck")
+                        except WorkerClosedError:
+                            continue            # alive but already closed (e.g. by a restart that could not stop it): try the next one
                         stuck = True
                         s.sleep(1)
                         break
